@@ -2,6 +2,7 @@ import Driver.Util
 import Driver.Hash
 import Driver.Codec
 import Driver.Seq
+import Driver.HintE
 
 open Driver
 
@@ -12,6 +13,7 @@ def main (args : List String) : IO UInt32 := do
     | ["hash"] => Driver.Hash.run lines
     | ["codec"] => Driver.CodecEngine.run lines
     | ["seq"] => Driver.Seq.run lines
+    | ["hint"] => Driver.HintE.run lines
     | _ => do IO.eprintln "usage: driver <engine> < trace"; return 2
   IO.println s!"SUMMARY lines={lines.size} checked={rep.checked} diffs={rep.diffs}"
   return 0
